@@ -23,7 +23,7 @@ def describe(tier):
         'bounds': 'part A: all partitions of N<=%d into <=4 parts x all permutations; part B: all partitions in the block window (first 40 per point in quick)' % n,
         'assumptions': ['chance coincidence of two random placements of >= 12 blocks <= 1/12! = 2.1e-9 per case (inside the property\'s own 1e-8)',
                         'DP17 part B uses level ratio 1.0 and singleton-heavy databases so that the bucket choice alone has probability < 1e-8 of repeating'],
-        'must_be_nonzero': ['permutations', 'sorted-tables', 'array-cases', 'deep-array-cases', 'deep-blocks-compared'],
+        'must_be_nonzero': ['permutations', 'sorted-tables', 'large-label-tables', 'array-cases', 'deep-array-cases', 'deep-blocks-compared'],
     }
 
 
@@ -128,11 +128,15 @@ def b_profiles(name, cfg, tier):
     return out
 
 
+LARGE_A = {'quick': [[90] * 60], 'thorough': [[90] * 60, [1] * 5000, [700] * 10]}
+
+
 def units(tier, seed):
     us = []
     for name in LABEL_SCHEMES:
         for label, cfg in a_points(name, tier):
             us.append(('A/%s/%s' % (name, label), {'part': 'A', 'scheme': name, 'label': label, 'cfg': cfg}))
+        us.append(('A-large/%s' % name, {'part': 'A-large', 'scheme': name, 'label': 'base', 'cfg': sse.base_cfg(name)}))
     for name in ARRAY_SCHEMES:
         for label, cfg in b_points(name, tier):
             n = len(b_profiles(name, cfg, tier))
@@ -141,8 +145,11 @@ def units(tier, seed):
     return us
 
 
-def run_a_case(r, seed, name, label, cfg, prof):
+def run_a_case(r, seed, name, label, cfg, prof, perms=None):
     case = {'part': 'A', 'scheme': name, 'label': label, 'cfg': cfg, 'profile': prof}
+    if perms:
+        case['large'] = True
+        r.count('large-label-tables')
     core.note_case(case)
     db, cfg1, g = sse.build_db(seed, name, label, cfg, prof, 6, 'disjoint')
     det.seed_case(seed, PROPERTY, 'A', name, label, tuple(prof))
@@ -155,9 +162,12 @@ def run_a_case(r, seed, name, label, cfg, prof):
     kws = list(db)
     real = real_counts(name, cfg, prof)
     ref = None
-    for perm in itertools.permutations(range(len(kws))):
+    nk = len(kws)
+    # thousands of entries in dozens of lists: three keyword orders (as supplied, reversed, rotated by a third) instead of all
+    for perm in (itertools.permutations(range(nk)) if not perms else
+                 [tuple(range(nk)), tuple(reversed(range(nk))), tuple(list(range(nk // 3, nk)) + list(range(nk // 3)))]):
         pdb = {kws[i]: db[kws[i]] for i in perm}
-        c = dict(case, permutation=list(perm))
+        c = dict(case, permutation=(list(perm) if not perms else 'order %d of 3' % [0, nk - 1, nk // 3].index(perm[0])))
         r['evaluations'] += 1
         r['states'] += 1
         r.count('permutations')
@@ -331,6 +341,10 @@ def run_unit(p, tier, seed):
             if sse.valid_profile(name, cfg, prof):
                 run_a_case(r, seed, name, label, cfg, prof)
         r.sample({'part': 'A', 'scheme': name, 'cfg_point': label, 'profiles': 'all partitions with 2..4 keywords', 'permutations': 'all'})
+    elif p['part'] == 'A-large':
+        for prof in LARGE_A[tier]:
+            if sse.valid_profile(name, cfg, prof):
+                run_a_case(r, seed, name, label, cfg, prof, perms=True)
     else:
         for idx, prof in enumerate(b_profiles(name, cfg, tier)[p['lo']:p['hi']]):
             run_b_case(r, seed, name, label, cfg, prof, deep=(tier != 'quick' or idx % 4 == 0))
@@ -342,7 +356,7 @@ def run_unit(p, tier, seed):
 def replay(case, seed):
     r = core.Result()
     if case['part'] == 'A':
-        run_a_case(r, seed, case['scheme'], case['label'], case['cfg'], case['profile'])
+        run_a_case(r, seed, case['scheme'], case['label'], case['cfg'], case['profile'], perms=bool(case.get('large')))
     else:
         run_b_case(r, seed, case['scheme'], case['label'], case['cfg'], case['profile'], deep=bool(case.get('deep')))
     return r['violations']
